@@ -110,6 +110,7 @@ json_endpoints! {
     fn scalars(b: bool, d: f64, u: Uuid, dt: conjure_object::DateTime<conjure_object::Utc>, sl: SafeLong, e: Color, i: i32, tok: BearerToken) -> ();
     fn query_params(q: String, opt_int: Option<i32>, strs: Vec<String>, str_set: BTreeSet<String>, colors: Vec<Color>, opt_alias: OptStrAlias, list_alias: IntListAlias, flag: bool, opt_double: Option<f64>) -> BTreeMap<String, String>;
     fn list_first(items: Vec<String>, tags: BTreeSet<String>, opt_str: Option<String>, tail: Vec<i32>) -> ();
+    fn keywords(type_: i32, match_: Uuid, ref_: i32, loop_: Option<bool>, fn_: i32, self_: Option<f64>) -> i32;
     fn headers(x_str: String, x_opt_int: Option<i32>, x_alias: StrAlias, x_enum: Color, x_opt_alias: OptStrAlias, x_opt_uuid: Option<Uuid>) -> Option<String>;
     fn auth_header_body(auth_: BearerToken, body: Payload) -> Payload;
     fn auth_cookie(auth_: BearerToken) -> BTreeSet<String>;
